@@ -131,6 +131,27 @@ def r2_refresh_first(c, facts):
         c.ok(R, {'refresh': 'diagnostics collected after all folders were evaluated'})
     else:
         c.bad(R, 'refresh:diagnostics-before-eval', 'refresh() collects diagnostics before (or while) evaluating the folders')
+    # every entry of the diagnostics map is published, the empty ones too (an empty list is what clears a stale diagnostic)
+    sb = sends[0][0]
+    nxt = [(b, t) for b, t in P.call_blocks(rf, 'Iterator::next') if sb in rf.reachable_from(t['target']) and b in rf.reachable_from(sb)]
+    if not nxt:
+        c.bad(R, 'refresh:publish-loop-not-found', 'refresh() no longer publishes inside a loop over the diagnostics map')
+    else:
+        nb, nt = nxt[0]
+        # from the loop body, the next iteration must not be reachable without passing a send
+        cur = nt['target']
+        sw2 = rf.mir['blocks'][cur]['term']
+        hops = 0
+        while sw2['t'] != 'switch' and hops < 3 and 'target' in sw2:
+            cur = sw2['target']; sw2 = rf.mir['blocks'][cur]['term']; hops += 1
+        some_t = P.enum_edges(sw2).get('1') if sw2['t'] == 'switch' else None
+        send_blocks = [b for b, _ in sends]
+        if some_t is not None and nb in rf.reachable_from(some_t, avoid=send_blocks):
+            c.bad(R, 'refresh:diagnostics-entry-skipped', 'refresh() can skip an entry of the diagnostics map without publishing it: the empty list that clears a stale diagnostic is never sent for that document')
+        elif some_t is not None:
+            c.ok(R, {'refresh': 'publishes every entry of the diagnostics map (no skip)'})
+        else:
+            c.skip(R, 'refresh', 'publish loop shape not recognised')
 
 
 def r3_reset_all(c, facts):
@@ -165,6 +186,34 @@ def r3_reset_all(c, facts):
         c.ok(R, {'diagnostics': 'returns the seeded map'})
     else:
         c.bad(R, 'diagnostics-returns-other-map', 'Workspace::diagnostics does not return the map seeded from docs')
+    # the pending errors accumulate over every folder evaluated by one refresh: only diagnostics() empties them
+    clearers = []
+    for fn in sorted(facts.fns.values(), key=lambda f: f.qname):
+        if not fn.mir or fn.crate not in ('oal_client', 'oal_lsp'):
+            continue
+        for b, blk in fn.blocks():
+            for s in blk['stmts']:
+                if s['s'] == 'assign' and s['place']['proj'] and MF.field_path(s['place'])[-1:] == ['errors'] and any(x.get('owner', '').endswith('lsp::Workspace') for x in s['place']['proj'] if x['p'] == 'field'):
+                    rv = s['rv']
+                    is_none = rv['r'] == 'aggr' and rv.get('variant') == 'None'
+                    if rv['r'] == 'use' and 'l' in rv['op']:
+                        ds = MF.defs_index(fn).get(rv['op']['l'], [])
+                        is_none = is_none or any(k == 'assign' and d['rv']['r'] == 'aggr' and d['rv'].get('variant') == 'None' for k, _, d in ds)
+                    if fn.qname.split('::')[-1] != 'new':
+                        clearers.append((fn.qname, 'assigns None' if is_none else 'assigns'))
+        i2 = None
+        for b, t in fn.calls():
+            cal = callee_of(t)
+            if not cal or not t['args'] or 'l' not in t['args'][0]:
+                continue
+            nm = P.strip(cal['def']).split('::')[-1]
+            if nm in ('take', 'clear', 'truncate', 'drain', 'replace') and 'Vec<(oal_model::span::Span' in t['args'][0].get('ty', '').replace('std::vec::', ''):
+                clearers.append((fn.qname, nm))
+    bad = sorted({(q, how) for q, how in clearers if q != 'oal_client::lsp::Workspace::diagnostics' and 'assigns' == how[:7] and how == 'assigns None' or (q != 'oal_client::lsp::Workspace::diagnostics' and how in ('take', 'clear', 'truncate', 'drain', 'replace'))})
+    if bad:
+        c.bad(R, 'errors-cleared-outside-diagnostics:%s' % ','.join(sorted({q.split('::')[-1] for q, _ in bad})), 'the pending errors of the workspace are emptied by %s: errors logged for a folder evaluated earlier in the same refresh are lost and a rejected program gets no diagnostic' % bad)
+    else:
+        c.ok(R, {'Workspace.errors': 'emptied only by diagnostics()', 'writers': sorted({q for q, _ in clearers})})
     fe = c.anchor(R, 'oal_client::lsp::Folder::eval')
     resets = []
     fidx = MF.defs_index(fe)
@@ -285,6 +334,8 @@ def r4_change(c, facts):
     else:
         c.bad(R, 'full-change-not-applied', 'a change without range no longer replaces the whole document')
     changes_in_order(c, facts, R)
+    RC = c.rule('C15.R7', 'CLAMP: a position past the end of a line or of the text is clamped, so the byte offsets handed to replace_range stay inside the text and the server stays alive (shared with C16.R3)')
+    c.shared(RC, c16.r3_clamp, 'C16.R3', facts)
     c16.run_units(c, facts, rule_prefix='C15.U', scope=['oal_client::lsp::Workspace::change', 'oal_client::lsp::unicode::position_to_utf8'],
                   must=['oal_client::lsp::Workspace::change', 'oal_client::lsp::unicode::position_to_utf8'], floors=False)
 
